@@ -2880,6 +2880,12 @@ func (p *Parser) evaluateInput(ctx context) (Expression, error) {
 
 func (p *Parser) evaluatePrint(ctx context) (Statement, error) {
 	return p.evaluateBuiltInFunction(lexer.PRINT, "print", 0, -1, ctx, func(keywordToken lexer.Token, expressions []Expression) (Statement, error) {
+		// A call of a function without return values has no value that could be printed.
+		for _, expression := range expressions {
+			if expression.ValueType().DataType() == DATA_TYPE_UNKNOWN {
+				return nil, p.expectedError("value", keywordToken)
+			}
+		}
 		return Print{
 			expressions: expressions,
 		}, nil
